@@ -116,6 +116,27 @@ def merge(lays: list[Layout | None]) -> tuple[Layout | None, str | None]:
     return None, None
 
 
+PARTS: dict[str, list[Atom]] = {}  # atom label -> the ordered sub-atoms a view split it into
+_FRESH = [0]
+
+
+def fresh_atom(prefix: str, size: Dim) -> Atom:
+    _FRESH[0] += 1
+    return (f"{prefix}#{_FRESH[0]}", size)
+
+
+def expand_parts(lay: Layout) -> Layout:
+    """replace every atom that was split by a view with its ordered parts (recursively)"""
+    out: list[Atom] = []
+    for a in lay:
+        ps = PARTS.get(a[0])
+        if ps:
+            out.extend(expand_parts(tuple(ps)))
+        else:
+            out.append(a)
+    return tuple(out)
+
+
 def regroup(src: list[Layout | None], tgt_sizes: list[Dim], norm: Any) -> list[Layout | None]:
     """layouts of the axes of ``view(tgt_sizes)``: consecutive atoms are merged / an atom is split"""
     if any(l is None for l in src):
@@ -161,8 +182,14 @@ def regroup(src: list[Layout | None], tgt_sizes: list[Dim], norm: Any) -> list[L
                 ok = True
                 break
         if ok:
+            made = []
             for n, p in enumerate(parts):
-                out.append(() if p.as_int() == 1 else ((f"{a_label}.{n}", p),))
+                if p.as_int() == 1:
+                    out.append(())
+                else:
+                    out.append(((f"{a_label}.{n}", p),))
+                    made.append((f"{a_label}.{n}", p))
+            PARTS[a_label] = made
             i += 1
             k = kk
             continue
